@@ -310,15 +310,20 @@ PROPS = {
         # every observed field belongs to C16 here: a callback that sees another state or never returns
         "reject_is_fail_fields": ["ret"],
         "campaigns": {
-            "quick": [{"name": "mem-reentrant", "args": ["mode=oracle", "cases=1500", "maxops=30", "cb=1", "watchdog=20"]}],
+            "quick": [{"name": "mem-reentrant", "args": ["mode=oracle", "cases=1500", "maxops=30", "cb=1", "watchdog=20"]},
+                      {"name": "mem-drop-reentrant", "args": ["mode=algo", "cases=600", "maxops=30", "dropre=1", "watchdog=20"]}],
             "thorough": [{"name": "mem-reentrant", "args": ["mode=oracle", "cases=40000", "maxops=60", "cb=1", "watchdog=30"]},
-                         {"name": "mem-reentrant-algo", "args": ["mode=algo", "cases=20000", "maxops=60", "cb=1", "watchdog=30"]}],
+                         {"name": "mem-reentrant-algo", "args": ["mode=algo", "cases=20000", "maxops=60", "cb=1", "watchdog=30"]},
+                         {"name": "mem-drop-reentrant", "args": ["mode=algo", "cases=20000", "maxops=60", "dropre=1", "watchdog=30"]}],
         },
         "nontrivial": r"nested=1",
         "rule": "single-shard caches of all five algorithms whose EventListener re-enters the same cache from inside on_leave "
                 "(contains / get+drop / insert of a fresh key / remove), while weighter and filter are ordinary closures; random op "
                 "sequences; each operation runs under a watchdog (no progress for 20 s = deadlock, reported with the operation); the "
                 "nested operations' results and the state they observe are compared with the model's post-unlock semantics; "
+                "a second campaign gives the values a destructor that looks its key up in the same cache, on caches built with "
+                "and without an event listener (all five algorithms, model-predicted victims): a value dropped under a shard "
+                "lock deadlocks and is reported by the watchdog; "
                 "non-trivial = at least one nested (re-entrant) operation; distinct = distinct (cfg, op sequence)",
         "trusted_base": TB_COMMON,
         "assumptions": MEM_ASSUME + ["that no lock is held during callbacks is exhibited for the real code by absence of deadlock and by "
